@@ -1048,7 +1048,7 @@ func (g *Gen) query() Op {
 	case 0:
 		return NewOp("QUERY", "q", "geta", "a", a)
 	case 1:
-		return NewOp("QUERY", "q", "lista", "st", g.r.Pick("-", "-", "1", "2", "3", "4", "5"), "ty", g.r.Pick("-", "-", "1", "2"))
+		return NewOp("QUERY", "q", "lista", "st", g.r.Pick("-", "-", "1", "2", "3", "4", "5", "-", "1", "2", "3", "4", "5", "0", "6"), "ty", g.r.Pick("-", "-", "1", "2", "-", "1", "2", "-", "1", "2", "0", "3"))
 	case 2:
 		return NewOp("QUERY", "q", "getb", "a", a, "b", fmt.Sprint(g.r.N(5)))
 	case 3:
